@@ -118,7 +118,7 @@ def load_fourier():
     util = Mod(util_ns, linops.UTIL)
     import math
     ns = base_ns(util=util, interp=InterpV, ceil=core.sym_ceil)
-    src.load_module(FOURIER, ns, only=["nufft", "nufft_adjoint", "_apodize", "_scale_coord", "_get_oversamp_shape", "estimate_shape"])
+    src.load_module(FOURIER, ns)         # the whole module (helpers a change adds are executed); fft / ifft are replaced by their contracts below
 
     def fft(input, oshape=None, axes=None, center=True, norm="ortho"):
         if oshape is not None or not center or norm is not None:
